@@ -271,6 +271,7 @@ pub struct RunCtx {
     pub sink:       Arc<Sink>,
     pub main:       Thread,
     pub firer:      OnceLock<Thread>,
+    pub pusher:     OnceLock<Thread>,
     pub blocking:   Vec<AtomicU64>,
     pub threads_done: AtomicUsize,
     pub mortal_job_owner: Mutex<Option<Arc<Obj>>>,
@@ -306,7 +307,7 @@ impl RunCtx {
 
     pub fn progress(&self) { self.main.unpark(); }
 
-    pub fn note_for_firer(&self) { if let Some(f) = self.firer.get() { f.unpark(); } }
+    pub fn note_for_firer(&self) { if let Some(f) = self.firer.get() { f.unpark(); } if let Some(f) = self.pusher.get() { f.unpark(); } }
 }
 
 // ---------------------------------------------------------------------------------------------
@@ -749,16 +750,31 @@ pub fn queue_state_class(d: &Obj) -> usize {
     8
 }
 
-pub fn run_firer(ctx: &Arc<RunCtx>) {
-    let mut rng = Rng::new(ctx.prog.run_seed ^ 0xf17e);
-    let mut acts: std::collections::VecDeque<FAct> = ctx.prog.fire.iter().cloned().collect();
+pub fn run_firer(ctx: &Arc<RunCtx>, pusher: bool) {
+    let mut rng = Rng::new(ctx.prog.run_seed ^ if pusher { 0x9055 } else { 0xf17e });
+    let mut acts: std::collections::VecDeque<FAct> = if pusher { ctx.prog.pusher.iter().cloned().collect() } else { ctx.prog.fire.iter().cloned().collect() };
+    let mut deferred = 0usize;
     while let Some(act) = acts.pop_front() {
         // a resume whose resumer has not been handed over yet must not hold up the events behind it (the suspend request may
         // be queued behind an operation that waits for one of those events): come back to it later
         if let FAct::Resume(op, _) = act {
             let ready = ctx.resumers[op].lock().unwrap().is_some() || ctx.recs[op].outcome.load(ORD) == 4 || ctx.recs[op].dropped_at.load(ORD) != 0;
-            if !ready && acts.iter().any(|a| !matches!(a, FAct::Resume(..))) { acts.push_back(act); continue; }
+            if !ready && !acts.is_empty() {
+                acts.push_back(act);
+                deferred += 1;
+                if deferred > acts.len() {
+                    // a whole round of resumes, none of them ready: sleep until a resumer is handed over
+                    let _b = ctx.blocked(op, PH_FIREWAIT);
+                    let any_ready = |acts: &std::collections::VecDeque<FAct>| acts.iter().any(|a| match a {
+                        FAct::Resume(o, _) => ctx.resumers[*o].lock().unwrap().is_some() || ctx.recs[*o].outcome.load(ORD) == 4 || ctx.recs[*o].dropped_at.load(ORD) != 0,
+                        _ => true });
+                    while !any_ready(&acts) { thread::park(); }
+                    deferred = 0;
+                }
+                continue;
+            }
         }
+        deferred = 0;
         // seeded pause: none, yield, short spin, or a sleep (so that wake-ups land before, during and long after the suspension)
         if ctx.native {
             match rng.below(10) {
@@ -846,7 +862,7 @@ pub fn build(prog: Program, native: bool) -> Handles {
     let ctx = Arc::new(RunCtx {
         recs: (0..n).map(|_| OpRec::new()).collect(),
         objs, weak, gates, holds, pipes, sink,
-        main: thread::current(), firer: OnceLock::new(),
+        main: thread::current(), firer: OnceLock::new(), pusher: OnceLock::new(),
         blocking: (0..48).map(|_| AtomicU64::new(0)).collect(),
         threads_done: AtomicUsize::new(0),
         mortal_job_owner: Mutex::new(None),
